@@ -382,4 +382,100 @@ theorem core_never_outside (cmax : Int) (pin : Option Pin) (b0 bmax bmin : Int) 
             subst ha
             omega
 
+/-! ### one broker object across its connections -/
+
+/-- The key table of the most recent connect whose `init` succeeded in a client that issues ApiVersions
+(events newest first): written from the events alone, it does not look at the stored cell. -/
+def latestTable : List Ev → Option (List ApiKey)
+  | [] => none
+  | .connect resp :: rest => if resp.isEmpty then latestTable rest else some resp
+  | .request _ :: rest => latestTable rest
+
+theorem latestTable_append (a b : List Ev) :
+    latestTable (a ++ b) = match latestTable a with | some t => some t | none => latestTable b := by
+  induction a with
+  | nil => simp [latestTable]
+  | cons e es ih =>
+    cases e with
+    | connect resp =>
+      simp only [List.cons_append, latestTable]
+      split
+      · exact ih
+      · rfl
+    | request r => simpa only [List.cons_append, latestTable] using ih
+
+theorem runEvs_append (umax umin : Option Versions) (s : StoredV) (pre post : List Ev) :
+    runEvs umax umin s (pre ++ post) = runEvs umax umin s pre ++ runEvs umax umin (storedAfter umax s pre) post := by
+  induction pre generalizing s with
+  | nil => rfl
+  | cons e es ih => simp [runEvs, storedAfter, ih]
+
+theorem storedAfter_append (umax : Option Versions) (s : StoredV) (pre post : List Ev) :
+    storedAfter umax s (pre ++ post) = storedAfter umax (storedAfter umax s pre) post := by
+  induction pre generalizing s with
+  | nil => rfl
+  | cons e es ih => simp [storedAfter, ih]
+
+/-- In a client that issues ApiVersions the cell holds the table of the latest successful connect, whatever
+it held before; without one it is unchanged. -/
+theorem storedAfter_latest (umax : Option Versions) (hiss : issuesApiVersions umax = true) (s : StoredV) (pre : List Ev) :
+    storedAfter umax s pre = match latestTable pre.reverse with | some t => some (load t) | none => s := by
+  induction pre generalizing s with
+  | nil => rfl
+  | cons e es ih =>
+    rw [storedAfter, ih, List.reverse_cons, latestTable_append]
+    cases hl : latestTable es.reverse with
+    | some t => rfl
+    | none =>
+      cases e with
+      | connect resp =>
+        simp only [latestTable, stepStored, initCxn, hiss, if_true]
+        cases hre : resp.isEmpty <;> simp [storeVersions]
+      | request r => simp [latestTable, stepStored]
+
+/-- Once something is stored, something stays stored. -/
+theorem stepStored_isSome (umax : Option Versions) (s : StoredV) (e : Ev) (h : s.isSome = true) :
+    (stepStored umax s e).isSome = true := by
+  cases e with
+  | connect resp =>
+    simp only [stepStored, initCxn, storeVersions]
+    split
+    · split <;> simp [h]
+    · cases s with
+      | none => cases h
+      | some bv => simp
+  | request r => exact h
+
+theorem storedAfter_isSome (umax : Option Versions) (s : StoredV) (es : List Ev) (h : s.isSome = true) :
+    (storedAfter umax s es).isSome = true := by
+  induction es generalizing s with
+  | nil => exact h
+  | cons e es ih => exact ih _ (stepStored_isSome umax s e h)
+
+/-- A connect whose `init` succeeded leaves something stored. -/
+theorem initCxn_ok_isSome (umax : Option Versions) (s : StoredV) (resp : List ApiKey) (h : (initCxn umax s resp).2 = true) :
+    (initCxn umax s resp).1.isSome = true := by
+  unfold initCxn at h ⊢
+  split
+  · split
+    · rename_i h1 h2; simp [h1, h2] at h
+    · simp [storeVersions]
+  · cases s <;> simp [storeVersions]
+
+theorem latestAdv_cons_wrote (seen : List Obs) (k c : Int) (pM pm : Option Int) (um un : User) (v : Int) :
+    latestAdv (.wrote k c pM pm um un v :: seen) = latestAdv seen := rfl
+theorem latestAdv_cons_failed (seen : List Obs) (k c : Int) (pM pm : Option Int) (um un : User) :
+    latestAdv (.failed k c pM pm um un :: seen) = latestAdv seen := rfl
+
+/-- `traceOkFrom` over a concatenation. -/
+theorem traceOkFrom_append (seen a b : List Obs) :
+    traceOkFrom seen (a ++ b) = (traceOkFrom seen a && traceOkFrom (a.reverse ++ seen) b) := by
+  induction a generalizing seen with
+  | nil => simp [traceOkFrom]
+  | cons o os ih => simp [traceOkFrom, ih, Bool.and_assoc]
+
+/-- What the Spec reads from a key table is what the clamp finds in the loaded table. -/
+theorem specBroker_load (t : List ApiKey) (k : Int) : specBroker (some (load t)) k = rangeIn t k := by
+  simp only [specBroker, rangeIn, find_load]
+
 end Proof.C21
